@@ -106,11 +106,16 @@ def _stores_to(ff: FuncFlow, name: str) -> List[Tuple[Node, ast.AST, ast.AST, Op
 
 def _loop_of(ff: FuncFlow, node: ast.AST) -> Optional[ast.For]:
   m = ff.module
+  child = node
   n = m.parent_of.get(node)
   while n is not None and n is not ff.fi.node:
-    if isinstance(n, (ast.For, ast.While)):
+    if isinstance(n, ast.While):
       return n
-    n = m.parent_of.get(n)
+    if isinstance(n, ast.For):
+      # the iterable (and the target) of a for statement is evaluated once, outside the repetition
+      if not (child is n.iter or child is n.target):
+        return n
+    child, n = n, m.parent_of.get(n)
   return None
 
 
